@@ -259,7 +259,7 @@ pub fn run(tr: &mut Tr, seed: u64, histories: usize, len: usize) {
         for w in WRITER_WORDS {
             let backend = WRITER_BACKENDS[rng.random_range(0..WRITER_BACKENDS.len())];
             let cfg = wcfgs.iter().find(|c| c.le == le && c.w == w && c.backend == backend).unwrap().clone();
-            let mut tw = TW::new(tr, &cfg, 1 << 16);
+            let mut tw = TW::new(tr, &cfg, 1 << 12);
             let starts = apply_items(tr, &mut tw, &items);
             if tw.dead {
                 continue;
